@@ -21,8 +21,8 @@
 EXTENDS ProposalValid, TLC, Json
 
 CONSTANT Emit
-VARIABLES c, done
-vars == << c, done >>
+VARIABLES c, exp, done
+vars == << c, exp, done >>
 
 Coin(tx, n, v)    == [tx |-> tx, n |-> n, v |-> v]
 Note(tx, p, n, v) == [tx |-> tx, p |-> p, n |-> n, v |-> v]
@@ -56,9 +56,9 @@ PoTwoMaps(r) == LET j == r[2].i IN
        \cup {<< PM(0, p1), PM(3 - j, p2) >> : p1 \in Receivers(r[1].k), p2 \in Receivers(r[2].k)}
 PoStep(r, pm) == LET need == SumSeq([x \in 1..Len(r) |-> IF r[x].a = NoAmt THEN 0 ELSE r[x].a]) + 1
                  IN Step(r, pm, << >>, << Note(1, "S", 0, need) >>, << >>, TRUE, << >>, 1, FALSE)
-SlicePools ==
-    UNION {{Case("pools", iw, << PoStep(r, pm) >>, << 1 >>) : pm \in PoOneMaps(r), iw \in BOOLEAN} : r \in PoOneReq}
-    \cup UNION {{Case("pools", iw, << PoStep(r, pm) >>, << 1 >>) : pm \in PoTwoMaps(r), iw \in BOOLEAN} : r \in PoTwoReq}
+GenPools ==
+    \/ \E r \in PoOneReq : \E pm \in PoOneMaps(r), iw \in BOOLEAN : c = Case("pools", iw, << PoStep(r, pm) >>, << 1 >>)
+    \/ \E r \in PoTwoReq : \E pm \in PoTwoMaps(r), iw \in BOOLEAN : c = Case("pools", iw, << PoStep(r, pm) >>, << 1 >>)
 
 (* slice "single" *)
 SgTin == {<< >>, << Coin(1, 0, 2) >>, << Coin(1, 0, 0) >>, << Coin(1, 0, 2), Coin(2, 0, 1) >>}
@@ -74,12 +74,10 @@ SgPay == {[req |-> << >>, pools |-> << >>],
 SgChange == {<< >>, << Ch("S", 1, FALSE) >>, << Ch("O", 1, FALSE) >>, << Ch("O", 2, FALSE) >>, << Ch("O", 3, FALSE) >>,
              << Ch("I", 1, FALSE) >>, << Ch("O", 1, FALSE), Ch("O", 1, FALSE) >>, << Ch("O", 1, FALSE), Ch("S", 1, FALSE) >>,
              << Ch("T", 1, FALSE) >>, << Ch("T", 1, TRUE) >>}
-SliceSingle ==
-    {cs \in UNION {{Case("single", iw, << st >>, << 1 >>) :
-                       st \in WithFees(Step(py.req, py.pools, tin, sin, << >>, an, chg, 0, sh), << >>, {})}
-                   : iw \in BOOLEAN, tin \in SgTin, sin \in SgSin, py \in SgPay, chg \in SgChange,
-                     an \in BOOLEAN, sh \in BOOLEAN}
-        : ~Ambiguous(cs.steps[1])}
+GenSingle ==
+    \E iw \in BOOLEAN, tin \in SgTin, sin \in SgSin, py \in SgPay, chg \in SgChange, an \in BOOLEAN, sh \in BOOLEAN :
+       \E st \in WithFees(Step(py.req, py.pools, tin, sin, << >>, an, chg, 0, sh), << >>, {}) :
+          ~Ambiguous(st) /\ c = Case("single", iw, << st >>, << 1 >>)
 
 (* slice "overflow" *)
 OvTin == {<< >>, << Coin(1, 0, M) >>, << Coin(1, 0, M), Coin(2, 0, 1) >>, << Coin(1, 0, M - 1), Coin(2, 0, 1) >>}
@@ -91,10 +89,10 @@ OvPay == {[req |-> << >>, pools |-> << >>],
           [req |-> << Pay(0, "zs", M - 1) >>, pools |-> << PM(0, "S") >>],
           [req |-> << Pay(0, "zs", 1) >>, pools |-> << PM(0, "S") >>]}
 OvChange == {<< >>, << Ch("S", M, FALSE) >>, << Ch("S", M - 1, FALSE) >>, << Ch("S", 1, FALSE) >>}
-SliceOverflow ==
-    UNION {{Case("overflow", FALSE, << st >>, << 1 >>) :
-               st \in WithFees(Step(py.req, py.pools, tin, sin, << >>, TRUE, chg, 0, FALSE), << >>, {0, 1})}
-           : tin \in OvTin, sin \in OvSin, py \in OvPay, chg \in OvChange}
+GenOverflow ==
+    \E tin \in OvTin, sin \in OvSin, py \in OvPay, chg \in OvChange :
+       \E st \in WithFees(Step(py.req, py.pools, tin, sin, << >>, TRUE, chg, 0, FALSE), << >>, {0, 1}) :
+          c = Case("overflow", FALSE, << st >>, << 1 >>)
 
 (* slices "two" and "three": a fixed catalogue of chain outputs, so that an output has one value *)
 N1 == Note(1, "S", 0, 4)
@@ -119,10 +117,10 @@ TwOwn == {[tin |-> << >>, sin |-> << >>], [tin |-> << >>, sin |-> << N1 >>], [ti
 TwSecond(prior, own, s0, d) ==
     Balanced(Step(<< PT(0, 1) >>, << PM(0, "T") >>, own.tin, own.sin, prior, TRUE, << >>, 0, FALSE), << s0 >>, d)
 TwPicks(steps) == IF BuildOk(steps, FALSE) THEN {<< 1, 2 >>, << 2 >>, << 2, 1 >>} ELSE {<< 1, 2 >>}
-SliceTwo ==
-    UNION {LET steps == << s0, TwSecond(prior, own, s0, d) >>
-           IN {Case("two", FALSE, steps, pk) : pk \in TwPicks(steps)}
-           : s0 \in TwFirst, prior \in Seqs2(Refs({0, 1}, {0, 1, 2})), own \in TwOwn, d \in {0, 1}}
+GenTwo ==
+    \E s0 \in TwFirst, prior \in Seqs2(Refs({0, 1}, {0, 1, 2})), own \in TwOwn, d \in {0, 1} :
+       \E steps \in {<< s0, TwSecond(prior, own, s0, d) >>} :
+          \E pk \in TwPicks(steps) : c = Case("two", FALSE, steps, pk)
 
 ThFirst == {Step(<< PT(0, 2) >>, << PM(0, "T") >>, << >>, << N1 >>, << >>, TRUE, << Ch("S", 1, FALSE) >>, 1, FALSE),
             Step(<< PT(0, 2), PT(1, 1) >>, << PM(0, "T"), PM(1, "T") >>, << >>, << N1, N4 >>, << >>, TRUE, << >>, 3, FALSE)}
@@ -131,19 +129,16 @@ ThSecond(prior, sin, s0) ==
 ThThird(prior, sin, s0, s1) ==
     Balanced(Step(<< >>, << >>, << >>, sin, prior, TRUE, << >>, 0, FALSE), << s0, s1 >>, 0)
 ThPicks(steps) == IF BuildOk(steps, TRUE) THEN {<< 1, 2, 3 >>, << 1, 3 >>, << 2, 1, 3 >>, << 1, 3, 2 >>} ELSE {<< 1, 2, 3 >>}
-SliceThree ==
-    UNION {LET s1 == ThSecond(p1, sin1, s0)
-               steps == << s0, s1, ThThird(p2, sin2, s0, s1) >>
-           IN {Case("three", TRUE, steps, pk) : pk \in ThPicks(steps)}
-           : s0 \in ThFirst, p1 \in {<< >>, << Ref(0, "P", 0) >>, << Ref(0, "C", 0) >>}, sin1 \in {<< >>, << N3 >>},
-             p2 \in Seqs2(Refs({0, 1, 2}, {0, 1})), sin2 \in {<< >>, << N1 >>, << N3 >>, << N5 >>}}
-
-Cases == SlicePools \cup SliceSingle \cup SliceOverflow \cup SliceTwo \cup SliceThree
+GenThree ==
+    \E s0 \in ThFirst, p1 \in {<< >>, << Ref(0, "P", 0) >>, << Ref(0, "C", 0) >>}, sin1 \in {<< >>, << N3 >>},
+       p2 \in Seqs2(Refs({0, 1, 2}, {0, 1})), sin2 \in {<< >>, << N1 >>, << N3 >>, << N5 >>} :
+       \E s1 \in {ThSecond(p1, sin1, s0)} :
+          \E steps \in {<< s0, s1, ThThird(p2, sin2, s0, s1) >>} :
+             \E pk \in ThPicks(steps) : c = Case("three", TRUE, steps, pk)
 
 --------------------------------------------------------------------------------------------
 (* the verdict of the rule *)
 Picked(cs) == [x \in 1..Len(cs.pick) |-> cs.steps[cs.pick[x]]]
-OnlyOf(V) == IF Cardinality(V) = 1 THEN CHOOSE x \in V : TRUE ELSE ""
 
 \* stage "build": Step::from_parts must refuse step `at` (1-based; the ones before it are accepted);
 \* stage "multi": every step is accepted, Proposal::multi_step must refuse the picked list;
@@ -151,34 +146,39 @@ OnlyOf(V) == IF Cardinality(V) = 1 THEN CHOOSE x \in V : TRUE ELSE ""
 \* stage "unjudged": the picked list gives multi_step nothing to object to, but a step in it was
 \*                validated against other predecessors than the ones it now has (its balance was
 \*                computed from a different output): multi_step's documented precondition is not met.
-Expect(cs) ==
-    LET n   == Len(cs.steps)
-        bv  == [k \in 1..n |-> StepViol(cs.steps[k], SubSeq(cs.steps, 1, k - 1), cs.iw)]
-        bad == {k \in 1..n : bv[k] # {}}
+\* (TLC re-evaluates LET definitions and operator arguments at every use outside actions; values
+\* that are used more than once are therefore bound by a quantifier over a singleton set.)
+Sole(S) == CHOOSE x \in S : TRUE
+JudgeList(ps, lv, iw) ==
+    IF lv # {} THEN [stage |-> "multi", at |-> 0, classes |-> lv, first |-> ListFirst(ps)]
+    ELSE IF StepsValid(ps, iw) THEN [stage |-> "ok", at |-> 0, classes |-> {}, first |-> ""]
+    ELSE [stage |-> "unjudged", at |-> 0, classes |-> {}, first |-> ""]
+ExpectOf(cs, bv) ==
+    LET bad == {k \in 1..Len(cs.steps) : bv[k] # {}}
     IN IF bad # {}
-       THEN [stage |-> "build", at |-> MinOf(bad), classes |-> bv[MinOf(bad)], first |-> FirstOf(bv[MinOf(bad)])]
-       ELSE LET ps == Picked(cs)
-                lv == ListViol(ps)
-            IN IF lv # {} THEN [stage |-> "multi", at |-> 0, classes |-> lv, first |-> OnlyOf(lv)]
-               ELSE IF StepsValid(ps, cs.iw) THEN [stage |-> "ok", at |-> 0, classes |-> {}, first |-> ""]
-               ELSE [stage |-> "unjudged", at |-> 0, classes |-> {}, first |-> ""]
+       THEN [stage |-> "build", at |-> MinOf(bad), classes |-> bv[MinOf(bad)], first |-> FirstOf(cs.steps[MinOf(bad)], bv[MinOf(bad)])]
+       ELSE Sole({Sole({JudgeList(ps, lv, cs.iw) : lv \in {ListViol(ps)}}) : ps \in {Picked(cs)}})
+Expect(cs) ==
+    Sole({ExpectOf(cs, bv) : bv \in {[k \in 1..Len(cs.steps) |-> StepViol(cs.steps[k], SubSeq(cs.steps, 1, k - 1), cs.iw)]}})
 
-Init == c \in Cases /\ done = FALSE
+NotYet == [stage |-> "", at |-> 0, classes |-> {}, first |-> ""]
+Init == (GenPools \/ GenSingle \/ GenOverflow \/ GenTwo \/ GenThree) /\ exp = NotYet /\ done = FALSE
 Eval == /\ ~done /\ done' = TRUE /\ UNCHANGED c
-        /\ Emit => PrintT(<< "CASE", ToJson([c |-> c, exp |-> Expect(c)]) >>)
+        /\ exp' = Expect(c)
+        /\ Emit => PrintT(<< "CASE", ToJson([c |-> c, exp |-> exp']) >>)
 Next == Eval
 Spec == Init /\ [][Next]_vars
 
 --------------------------------------------------------------------------------------------
 (* consequences, over every case *)
-Ok == Expect(c).stage = "ok"
+Ok == done /\ exp.stage = "ok"
 InvAgree == /\ Ok => ProposalValid(Picked(c), c.iw)
-            /\ (Expect(c).stage \in {"build", "multi"} /\ c.pick = [x \in 1..Len(c.steps) |-> x])
+            /\ (done /\ exp.stage \in {"build", "multi"} /\ c.pick = [x \in 1..Len(c.steps) |-> x])
                   => ~ProposalValid(c.steps, c.iw)
 InvConservation == Ok => Conservation(Picked(c))
 InvTurnstile == (Ok /\ c.iw) => OrchardOnlyDrains(Picked(c))
 InvShielding == Ok => ShieldingShape(Picked(c))
-InvFirst == Expect(c).stage = "build" => Expect(c).first \in Expect(c).classes
+InvFirst == (done /\ exp.stage \in {"build", "multi"}) => exp.first \in exp.classes
 InvRange == \A k \in 1..Len(c.steps) :
                /\ c.steps[k].fee \in 0..M
                /\ \A x \in 1..Len(c.steps[k].change) : c.steps[k].change[x].v \in 0..M
